@@ -116,7 +116,7 @@ theorem while0_spec {idx base kk : Nat} {o : List Int} (hk : 1 ≤ kk) :
     · have g' : while0Cond st = false := by simpa using g
       refine ⟨N, le_refl _, ?_, ?_⟩
       · simpa [while0, g'] using h
-      · simpa [while0, g'] using g'
+      · simp [while0, g']
 
 /-! ### the second `for` -/
 
@@ -161,11 +161,18 @@ structure OInv (idx base kk : Nat) (o : List Int) (N : Nat) (st : St) : Prop whe
   hlo : base ≤ idx
   hhi : idx < base + N.choose kk
 
+/-- the state after the three assignments that precede the `while` -/
+def preSt (st : St) (v : Int) : St :=
+  { st with k := v, n_ck := Int.fdiv (st.n_ck * v) st.n, err := st.err || (st.n == 0) }
+
+theorem outerStep_eq (st : St) (v : Int) :
+    outerStep st v =
+      (let s := while0 (st.n.toNat + 1) (preSt st v)
+       { s with n := s.n - 1, out := s.out ++ [s.n - 1] }) := rfl
+
 /-- the three assignments before the `while` establish the inner invariant -/
 theorem pre_while {idx base kk o N st} (hk : 1 ≤ kk) (h : OInv idx base kk o N st) :
-    LInv idx base kk o N
-      { st with k := (kk : Int), n_ck := Int.fdiv (st.n_ck * (kk : Int)) st.n,
-                err := st.err || (st.n == 0) } := by
+    LInv idx base kk o N (preSt st (kk : Int)) := by
   have hkN : kk ≤ N := by
     by_contra hc
     have := Nat.choose_eq_zero_of_lt (Nat.lt_of_not_le hc)
@@ -197,15 +204,10 @@ theorem outer_step {idx base kk o N st} (hk : 1 ≤ kk) (h : OInv idx base kk o 
     intro hlt
     have := (cond_iff hk hI).2 hlt
     rw [hC] at this; exact Bool.noConfusion this
-  have hfuel : ({ st with k := (kk : Int), n_ck := Int.fdiv (st.n_ck * (kk : Int)) st.n,
-                err := st.err || (st.n == 0) } : St).n.toNat + 1 = N + 1 := by
-    show st.n.toNat + 1 = N + 1
-    rw [h.hn]; simp
+  have hfuel : st.n.toNat + 1 = N + 1 := by rw [h.hn]; simp
   have hM1' : ((M - 1 : Nat) : Int) = (M : Int) - 1 := by omega
   refine ⟨M - 1, by omega, ?_⟩
-  unfold outerStep
-  simp only []
-  rw [hfuel]
+  rw [outerStep_eq, hfuel]
   refine ⟨hI.hindex, ?_, ?_, ?_, ?_, hI.herr, hI.hoof, ?_, ?_⟩
   · show (while0 (N+1) _).n - 1 = _
     rw [hI.hn, hM1']
@@ -297,8 +299,7 @@ theorem firstStep_fold (idx n k : Nat) (st : St) (hn : st.n = (n : Int)) (hk : s
 theorem zip_ranges (n k : Nat) :
     List.zip (pyRange (n : Int) ((n : Int) - (k : Int)) (-1)) (pyRange 1 ((k : Int) + 1) 1)
       = (List.range k).map (fun (j : Nat) => ((n : Int) - (j : Int), (j : Int) + 1)) := by
-  rw [pyRange_down, pyRange_up, List.zip_map, List.zip_self_eq_map, List.map_map]
-  rfl
+  rw [pyRange_down, pyRange_up, List.zip_map']
 
 theorem phase1_spec (idx n k : Nat) (hkn : k ≤ n) :
     let s := phase1 { index := (idx : Int), n := (n : Int), k := (k : Int) }
@@ -324,7 +325,8 @@ theorem run_spec (idx n k : Nat) (h : idx < n.choose k) :
   rw [body_eq]
   simp only []
   generalize phase1 { index := (idx : Int), n := (n : Int), k := (k : Int) } = s at *
-  rw [b2, pyRange_k_down]
+  have hr : pyRange s.k 0 (-1) = down k := by rw [b2, pyRange_k_down]
+  rw [hr]
   have hO : OInv idx 0 k [] n { s with current_index := s.n_ck } :=
     ⟨b3, b1, b7, by show s.n_ck = _; rw [b7]; simp, b4, b5, b6, Nat.zero_le _, by omega⟩
   obtain ⟨l, hout, hlen, hpw, hlt, hrank, herr, hoof⟩ := outer_fold k 0 n [] _ hO
